@@ -15,6 +15,8 @@ mod runner;
 mod gen;
 mod scen_body;
 mod scen_head;
+mod scen_exchange;
+mod world;
 mod reqgen;
 mod scen_req;
 mod scen_send;
@@ -163,6 +165,62 @@ fn props() -> Vec<Prop> {
             assumptions: &[A_COMMON, "DontCare (not decided by the statement): non-textual Host, Transfer-Encoding other than chunked, Content-Length '+5' or beyond u64, without-body constructor with a framing header on a body method"],
             cells_total: scen_req::C17_CELLS,
             cells_what: "(api: flow / with_body / without_body) x (validity class reached)",
+            exhaustive_note: "",
+        },
+        Prop {
+            id: "C01",
+            scenario: "exchange",
+            run: scen_exchange::c01,
+            quick: 60_000,
+            thorough: 3_000_000,
+            subs: &["exchanges", "exchanges", "exchanges", "peer-closes-mid-message"],
+            level: "exploration",
+            rule: "1..3 back-to-back exchanges on one fixed server byte stream (request: 9 methods, 1.0/1.1, CL/chunked/defaulted/no body, Expect with the await policy fixed per configuration; response: any status 101..999, CL/chunked/close-delimited/no body, 0..40 fields, optional interim 100) run in a discrete-event world under drawn arrival schedules (one-shot, trickle, random, structural), drawn output/piece/read buffer policies (large, 0..12, random, mixed), client think times, segment latencies, spurious re-polls, read-only queries and boundary-stop toggles; compared with reference models, with the canonical-schedule twin of the real code, and continued on the same stream when the verdict allows reuse; a sub-batch cuts the stream inside the response (peer close); non-trivial = >=8 library calls; distinct = abstract trace (state path, call count, overflow retries)",
+            assumptions: &[A_COMMON, "no arrival cut between the end of a 3xx head's Location line and the end of that head (owned by C05)", "with Expect the await-100 policy (wait for a decision / give up at once) is part of the configuration; the timer race itself is C11's"],
+            cells_total: 0,
+            cells_what: "",
+            exhaustive_note: "",
+        },
+        Prop {
+            id: "C06",
+            scenario: "exchange-framing",
+            run: scen_exchange::c06,
+            quick: 2 * scen_exchange::C06_CELLS as u64,
+            thorough: 300 * scen_exchange::C06_CELLS as u64,
+            subs: &["cells"],
+            level: "exploration",
+            rule: "schedule-free: the run index enumerates the 4860 coarse cells method(9) x status class(9) x response version(2) x Content-Length class(6) x Transfer-Encoding class(5) round-robin, the seed picks the exact status and values; the real exchange is driven one-shot in 3 of 4 runs and sliced in the rest; compared with an independent RFC 9112 6.3 reference (error / successor state / body_mode / delivered bytes / exact consumption) on Flow and, sampled, on Call::into_body; every run is non-trivial; distinct = (cell, path length, terminal)",
+            assumptions: &[A_COMMON, "DontCare cells: 3xx != 304 without Content-Length but with a Transfer-Encoding that does not delimit; 'chunked, gzip'; Content-Length '+5'; chunked together with a non-numeric Content-Length", "status 100 is excluded (C11)", "single Content-Length / Transfer-Encoding field"],
+            cells_total: scen_exchange::C06_CELLS,
+            cells_what: "method x status class {1xx,200,204,2xx,3xx!=304,304,4xx,5xx,6xx-9xx} x version x CL {absent,0,n,u64::MAX,>u64::MAX,non-numeric} x TE {absent,chunked,mixed case,list ending in chunked,other}",
+            exhaustive_note: "every coarse cell is visited at least twice per quick run (round-robin), the values inside a cell are sampled",
+        },
+        Prop {
+            id: "C10",
+            scenario: "exchange-verdict",
+            run: scen_exchange::c10,
+            quick: 60_000,
+            thorough: 3_000_000,
+            subs: &["verdicts"],
+            level: "exploration",
+            rule: "exchanges over request version x original Connection header (close / keep-alive / both / absent) x method x Expect handshake outcome (produced by the simulated timer racing drawn arrival latencies: continued, refused, timed out, late 100) x response version x status (3xx with and without body: Redirect and Cleanup exits) x framing x response Connection values; an all-five-conditions cell is forced in 1 of 12 runs; verdict compared with the set of true close conditions, reason mapped by keyword, and a reusable connection is really reused for a next exchange; distinct = (condition mask, path length, exit state)",
+            assumptions: &[A_COMMON, "Connection values exactly 'close' / 'keep-alive' on the original request and the response", "unknown reason wording is counted as unverifiable, not alarmed"],
+            cells_total: 64,
+            cells_what: "(subset of the 5 close conditions that holds) x (Redirect / Cleanup exit)",
+            exhaustive_note: "",
+        },
+        Prop {
+            id: "C11",
+            scenario: "exchange-expect100",
+            run: scen_exchange::c11,
+            quick: 60_000,
+            thorough: 3_000_000,
+            subs: &["race"],
+            level: "exploration",
+            rule: "Expect requests (1.0/1.1, CL/chunked) against a reactive simulated peer (100 after the head with drawn think time, refusal with any status with/without fields, or silence) while the client's await-100 timer (0 .. 60 s simulated) races the peer's think time and per-segment latencies; the first head is cut structurally around the status-line end; every try_read_100 is judged against the ground-truth head by zone, the edge out of Await100 against the decision, and the run continues to Cleanup/Redirect with the delivered response, body and consumption checked; distinct = abstract trace (zone, kind, result per look)",
+            assumptions: &[A_COMMON, "a bare 100 only (100 with fields is outside the statement)", "no second interim 100"],
+            cells_total: 0,
+            cells_what: "",
             exhaustive_note: "",
         },
     ]
